@@ -222,6 +222,14 @@ def handle (j : J) : J :=
                      | some (v, rest) => .obj [("value", strToJ v), ("rest", strToJ rest)]
                      | none => .null))]
     | none => bad "jsread"
+  | some "renders" =>
+    match j.getArr? "items" with
+    | some items =>
+      .obj [("htmls", .arr (items.map fun it =>
+        match (it.get? "opts") >>= optsOfJ, (it.get? "tree") >>= treeOfJ with
+        | some o, some t => strToJ (renderTree sites o t)
+        | _, _ => .null))]
+    | none => bad "renders"
   | some "sites" =>
     .obj [("all_escaped", .bool sites.allEscaped),
           ("table", .arr (siteTable.map fun p => .arr [.str (reprStr p.1), .bool p.2]))]
